@@ -55,7 +55,7 @@ func TestC08(t *testing.T) {
 				started[f[1]] = i
 			case "hfinish":
 				finished[f[1]] = i
-				if f[1] != "c777" { // the probe of the restarted server runs after the first WaitStatus by design
+				if !strings.HasPrefix(f[1], "c77") { // the probe of the restarted server runs after the first WaitStatus by design
 					lastFinish = i
 				}
 				if causeAt >= 0 && started[f[1]] < causeAt && !strings.Contains(f[1], "n") {
@@ -101,8 +101,8 @@ func TestC08(t *testing.T) {
 		if sc.Restart && r.Status != nil {
 			okOut, okStatus := false, false
 			for _, e := range r.Log {
-				if strings.HasPrefix(e, "restart-out ") && strings.Contains(e, `"id":777`) && strings.Contains(e, `"result"`) {
-					okOut = true
+				if strings.HasPrefix(e, "restart-out ") && strings.Contains(e, `"id":777`) && strings.Contains(e, `"result"`) && !strings.Contains(e, `"error"`) {
+					okOut = true // the whole probe batch - ids of the first run included - answered with results
 				}
 				if strings.HasPrefix(e, "restart-status closed closes=1") {
 					okStatus = true
